@@ -33,5 +33,7 @@ Verdict ==
 (* diagnostic only: does the real text equal the transcription's text? *)
 SpecText == Ser(R.case.term, [h |-> R.case.h, w |-> R.case.w], <<R.case.v>>, 0)
 Report == t = 0 \/ PrintT(ToJson([t |-> R.t, verdict |-> Verdict,
-                                  same_text_as_transcription |-> (R.ser = "ok" /\ SpecText.ok /\ SpecText.text = R.text)]))
+                                  same_text_as_transcription |->
+                                      IF "big" \in DOMAIN R.case THEN FALSE      \* scale-up boards: the transcription is not run
+                                      ELSE (R.ser = "ok" /\ SpecText.ok /\ SpecText.text = R.text)]))
 =============================================================================
